@@ -115,6 +115,9 @@ pub fn walk_ops(
     old_range: Range<usize>,
     new_range: Range<usize>,
 ) -> Result<(), Fail> {
+    // start > end is an empty range
+    let old_range = old_range.start..old_range.end.max(old_range.start);
+    let new_range = new_range.start..new_range.end.max(new_range.start);
     let (mut oi, mut ni) = (old_range.start, new_range.start);
     for (idx, op) in ops.iter().enumerate() {
         let (os, ol, ns, nl) = op.spans();
@@ -204,6 +207,9 @@ pub fn walk_raw(
     new_range: Range<usize>,
     expect_finish: bool,
 ) -> Result<(), Fail> {
+    // start > end is an empty range
+    let old_range = old_range.start..old_range.end.max(old_range.start);
+    let new_range = new_range.start..new_range.end.max(new_range.start);
     let nfinish = calls.iter().filter(|c| **c == Call::Finish).count();
     if expect_finish {
         if nfinish != 1 {
